@@ -43,12 +43,12 @@ MW_KINDS = ['P', 'S', 'Q', 'R', 'A']     # A = answers every request itself, not
 EXTRA_MW_KINDS = ['U', 'E']
 E_CODES = [-32600, -32700]
 TABLES = ['none', 'generic', 'per-code', 'both', 'two-per-key', 'replace-generic', 'replace-per-code', 'annotate', 'same-callable',
-          'codes-declared-before-generic', 'translate-to-protocol-codes']
+          'codes-declared-before-generic', 'translate-to-protocol-codes', 'handlers-for-rejection-codes']
 FLOORS = {'*': {**{f'mw:{k}:depth{d}': 20 for k in MW_KINDS + EXTRA_MW_KINDS for d in range(3)},
                 **{f'table:{t}:failing': 20 for t in TABLES if t != 'none'},
                 **{f'table:{t}:batch': 5 for t in TABLES}, **{f'table:{t}:notification': 5 for t in TABLES},
                 'flavour:sync': 500, 'flavour:async': 500, 'flavour:async-suspending': 500, 'flavour:async-sequential': 500, 'flavour:async-awaitables': 500,
-                'flavour:flask-endpoint': 100, 'flavour:aiohttp-endpoint': 100, 'flavour:sync-own-response-class': 100,
+                'flavour:flask-endpoint': 100, 'flavour:aiohttp-endpoint': 100, 'flavour:aiohttp-http-mounted': 40, 'flavour:sync-own-response-class': 100,
                 'flavour:async-own-response-class': 100, 'flavour:async-dict-context': 100, 'flavour:sync-dict-context': 100, 'rejected-documents': 100,
                 'short-circuit': 300, 'handler-events': 500, 'middleware-returns-UNSET-for-a-call': 100,
                 'middleware-answers-a-call-with-a-protocol-level-error': 100}}
@@ -57,6 +57,8 @@ EVENTS = []
 
 
 def tok(request):
+    if request is None:
+        return 'no-request'         # (a hook called without a request: recorded, the event checks then say what is wrong)
     return request.id if request.id is not None else f'n:{request.method}'
 
 
@@ -191,6 +193,10 @@ def table_spec(name):
     if name == 'translate-to-protocol-codes':
         # handlers that translate application failures into -32600 / -32700 (for requests that DO have an id)
         return {None: ['to-protocol-code'], **{c: ['identity', 'to-protocol-code'] for c in RAISED_CODES[:3]}}
+    if name == 'handlers-for-rejection-codes':
+        # entries under the codes of documents that are rejected before any request exists: nothing is ever raised with them
+        # inside the chain, so they never run (a rejected document reaches neither middlewares nor handlers)
+        return {-32600: ['annotate', 'replace'], -32700: ['replace'], None: ['identity'], -32601: ['annotate']}
     if name == 'same-callable':
         # one handler object listed generically and (twice) per code: every listed entry applies, in list order
         return {None: ['shared'], **{c: ['annotate', 'shared', 'shared'] for c in RAISED_CODES}}
@@ -315,6 +321,60 @@ def endpoint_factory(flavour):
     return make
 
 
+class HttpMounted:
+    """the endpoint dispatcher of an aiohttp integration application that is served BELOW a prefix of an outer application,
+    reached the way its clients reach it: an HTTP POST. Registration calls go to the real endpoint dispatcher."""
+
+    def __init__(self, disp, outer, path):
+        self._disp, self._outer, self._path = disp, outer, path
+        self.registry = disp.registry
+
+    def add_methods(self, *a, **k):
+        return self._disp.add_methods(*a, **k)
+
+    def add(self, *a, **k):
+        return self._disp.add(*a, **k)
+
+    def view(self, *a, **k):
+        return self._disp.view(*a, **k)
+
+    async def dispatch(self, text, context=None):
+        from aiohttp.test_utils import TestClient, TestServer
+        client = TestClient(TestServer(self._outer))
+        await client.start_server()
+        try:
+            async with client.post(self._path, data=text.encode(), headers={'Content-Type': 'application/json'}) as r:
+                body = (await r.read()).decode()
+                if r.status != 200:
+                    raise RuntimeError(f'HTTP status {r.status}: {body[:200]}')
+        finally:
+            await client.close()
+        if body == '':
+            return None
+        doc = json.loads(body)
+        elems = doc if isinstance(doc, list) else [doc]
+        return body, tuple(e.get('error', {}).get('code', 0) if isinstance(e, dict) else 0 for e in elems)
+
+
+ANY_CONTEXT = object()       # the flavour whose context object is made by the framework (the HTTP request)
+
+
+def http_mounted_factory():
+    decoy_mw = make_mw('A', 99, 'async')
+    decoy_eh = make_handler('decoy', 0, 'replace', 'async')
+
+    def make(**kwargs):
+        import aiohttp.web
+        from pjrpc.server.integration import aiohttp as integ
+        kwargs = {k: v for k, v in kwargs.items() if v}
+        rpc = integ.Application('/rpc', app=aiohttp.web.Application(), middlewares=[decoy_mw], error_handlers={None: [decoy_eh]})
+        disp = rpc.add_endpoint('/sub', **kwargs)
+        outer = aiohttp.web.Application()
+        outer.add_subapp('/svc', rpc.app)
+        return HttpMounted(disp, outer, '/svc/rpc/sub')
+    return make
+
+
 class SubResponse(v20.Response):
     """the dispatcher is configured with its own response class; a middleware may still answer with a plain Response"""
 
@@ -324,7 +384,7 @@ class SubBatchResponse(v20.BatchResponse):
 
 
 def base_flavour(flavour):
-    return {'flask-endpoint': 'sync', 'aiohttp-endpoint': 'async', 'sync-own-response-class': 'sync', 'async-own-response-class': 'async',
+    return {'flask-endpoint': 'sync', 'aiohttp-endpoint': 'async', 'aiohttp-http-mounted': 'async', 'sync-own-response-class': 'sync', 'async-own-response-class': 'async',
             'async-dict-context': 'async', 'sync-dict-context': 'sync'}.get(flavour, flavour)
 
 
@@ -339,6 +399,8 @@ def run_case(ctx, stack, table, doc_name, flavour):
     extra = {'concurrent_batch': False} if flavour == 'async-sequential' else {}
     if outer.endswith('-endpoint'):
         extra['make_dispatcher'] = endpoint_factory(outer)
+    if outer == 'aiohttp-http-mounted':
+        extra['make_dispatcher'] = http_mounted_factory()
     if outer.endswith('-own-response-class'):
         extra.update(response_class=SubResponse, batch_response=SubBatchResponse)
     w = world.World(is_async, None, middlewares=mws, error_handlers=handlers, **extra)
@@ -347,6 +409,8 @@ def run_case(ctx, stack, table, doc_name, flavour):
     text = doc if isinstance(doc, str) else json.dumps(doc)
     # (a plain dict is a perfectly good context object: the hooks get THAT object, not a copy of it)
     CTX = {'token-holder': 'c12'} if outer.endswith('-dict-context') else world.Context('c12')
+    if outer == 'aiohttp-http-mounted':
+        CTX = ANY_CONTEXT
     o = serverside.observe(w, text, context=CTX)
     cls = (''.join(stack), table, doc_name, flavour)
     fam = f'{flavour}:{len(stack)}mw:{table}'
@@ -378,7 +442,7 @@ def run_case(ctx, stack, table, doc_name, flavour):
     want_events, want_resps, want_exec = {}, [], []
     any_failing = False
     for el in elements:
-        ev, resp, ex = expected_element(el, stack, tspec, None if outer.endswith('-dict-context') else 'c12')
+        ev, resp, ex = expected_element(el, stack, tspec, None if (outer.endswith('-dict-context') or CTX is ANY_CONTEXT) else 'c12')
         t = el['id'] if el.get('id') is not None else f"n:{el['method']}"
         want_events[t] = ev
         if resp is not None:
@@ -409,11 +473,11 @@ def run_case(ctx, stack, table, doc_name, flavour):
             if not isinstance(e[3], v20.Request):
                 ctx.violation('middleware-not-given-the-parsed-request', fam, cls, **wit)
                 return
-            if e[4] is not CTX:
+            if CTX is not ANY_CONTEXT and e[4] is not CTX:
                 ctx.violation('middleware-not-given-the-context-object', fam, cls, **wit)
                 return
         if e[0] == 'handler':
-            if not isinstance(e[5], v20.Request) or e[6] is not CTX:
+            if not isinstance(e[5], v20.Request) or (CTX is not ANY_CONTEXT and e[6] is not CTX):
                 ctx.violation('error-handler-not-given-request-and-context', fam, cls, **wit)
                 return
     for t, want in want_events.items():
@@ -479,6 +543,8 @@ def gen(ctx):
                 flavours += ['sync-own-response-class', 'async-own-response-class', 'async-dict-context', 'sync-dict-context']
             if len(stack) <= 1 or (len(stack) == 2 and table in ('none', 'generic', 'both')):
                 flavours += ['flask-endpoint', 'aiohttp-endpoint']
+            if len(stack) <= 1 and (table in ('none', 'generic', 'per-code') or stack):
+                flavours += ['aiohttp-http-mounted']
             for flavour in flavours:
                 if full:
                     chosen = names
